@@ -37,4 +37,9 @@ TEXT = {
         "note": "Trusted: Lean kernel (+3 standard axioms), the Lean SHA-256 used only for execution, harness/driver tie. Domain restrictions are explicit hypotheses (last segment non-empty, parent not ending in '/').",
         "technique": "Lean 4 theorems over a character-level model of the path functions + differential evaluation against the Go functions",
     },
+    "C19": {
+        "level": "Theorem for any store of any record kind whose entries sit under the key built from their own fields: export then import gives back the identical store, exporting again gives the same list, the exported list passes the duplicate-key validation (C19_roundtrip_kind, C19_export_idempotent, C19_validate_accepts_export); kinds no genesis carries are lost (C19_omitted_kind_lost). The full property is FALSE on this tree for four record kinds (known findings, not repairable without protoc); the check runs a real ExportGenesis -> ValidateGenesis -> InitGenesis -> raw store comparison for all six modules and compares it with the model's table.",
+        "note": "Trusted: Lean kernel (+3 standard axioms), the hand-written table of exported kinds (validated against the real round trip each run), harness raw-store dump. Known findings: storage.FileProof, rns.PrimaryName, notification.Block, jklmint.MintedBlock are not exported.",
+        "technique": "Lean 4 round-trip theorem per record kind + real export/import round trip compared with the model's table",
+    },
 }
